@@ -142,6 +142,10 @@ def quick_family() -> List[Skeleton]:
             add(f"{op} over {op2}", [E(op, [E(op2, [E(nm.m()), E(nm.m())]), E(nm.m())])], "ops", "nest")
         add(f"{op} over $not", [E(op, [E("$not", [E(nm.m())]), E(nm.m())])], "ops", "nest", "not")
         add(f"{op} with leaf times inside", [E(op, [E(nm.m(), None, 2), E(nm.m())])], "ops", "times")
+        add(f"{op} of one repeated child, itself repeated", [E(nm.m()), E(op, [E(nm.m(), None, 2)], {"min": 1, "max": 2}), E(nm.m())],
+            "ops", "times")
+        add(f"optional {op} of one repeated group", [E(op, [E("$or", [E(nm.m()), E(nm.m())], 2)], {"min": 0, "max": 1}), E(nm.m())],
+            "ops", "times", "nest")
     # --- $not at instruction level (C04)
     add("leading $not", [E("$not", [E(nm.m())]), E(nm.m())], "not")
     add("inner $not", [E(nm.m()), E("$not", [E(nm.m(), [E(nm.o())])]), E(nm.m())], "not")
@@ -151,6 +155,11 @@ def quick_family() -> List[Skeleton]:
     for t in TIMES_VARIANTS[:2]:
         add(f"$not times {t}", [E(nm.m()), E("$not", [E(nm.m())], t), E(nm.m())], "not", "times")
     add("$not $not", [E("$not", [E("$not", [E(nm.m())])])], "not")
+    add("$not $not of a repeated instruction", [E("$not", [E("$not", [E(nm.m(), None, 2)])]), E(nm.m())], "not", "times")
+    add("$not $not of a two-instruction group", [E("$not", [E("$not", [E("$and", [E(nm.m()), E(nm.m())])])]), E(nm.m())], "not", "nest")
+    add("$not of a repeated instruction, itself repeated", [E("$not", [E(nm.m(), None, 2)], {"min": 1, "max": 2}), E(nm.m())], "not", "times")
+    for big in (1200, {"min": 0, "max": 1500}, {"min": 1100, "max": 1500}):
+        add(f"large repetition bound {big}", [E(nm.m(), None, big), E("$or", [E(nm.m()), E(nm.m())], big)], "times", "ops")
     # --- operand level operators
     for op in OPS:
         add(f"operand {op}", [E(nm.m(), [E(op, [E(nm.o()), E(nm.o())]), E(nm.o())])], "opnd", "ops")
